@@ -34,6 +34,7 @@ from datetime import datetime, timedelta, timezone
 
 from . import common
 from . import c01_own as own
+from . import c12_reads as reads
 from .common import Check, sx
 from .evutil import BASE, dt, us_of_dt, us_of_td
 
@@ -159,8 +160,47 @@ def full_dump(storage):
     return out
 
 
-def ev_rows(evs):
-    return [(e.id, us_of_dt(e.timestamp), us_of_td(e.duration), json.dumps(e.data, sort_keys=True)) for e in evs]
+ev_rows = reads.ev_rows
+
+
+def facade_dump(ds):
+    """every bucket once more, through the Datastore object the queries of the round share (Bucket.metadata / get /
+    get_eventcount): "exactly as they were" holds at this level of the API too"""
+    out = []
+    for b in sorted(ds.buckets()):
+        bk = ds[b]
+        rows = sorted(ev_rows(bk.get(-1)), key=lambda r: (r[1], r[0]))
+        out.append((b, json.dumps(bk.metadata(), sort_keys=True, default=str), rows, bk.get_eventcount()))
+    return out
+
+
+def write_between(what, storage, world, Event, rng, bk, a, b, sizes, history):
+    """the bucket changes between two queries (through the World on the memory back end, so that the model follows)"""
+    bnum = int(bk[1:])
+    t = a + rng.randrange(0, max(1, min(b - a, 20_000_000)))
+    ev = Event(timestamp=dt(t - t % 1000), duration=timedelta(microseconds=rng.choice([0, 1000, 2_000_000])),
+               data={"app": rng.choice(APPS), "title": "written between two queries", "url": "https://example.org/w?q=%d" % rng.randrange(5)})
+    existing = sorted(e.id for e in storage.get_events(bk, -1))
+    if what != "insert" and not existing:
+        what = "insert"
+    eid = rng.choice(existing) if existing else None
+    if world is not None:
+        if what == "insert":
+            world.insert_one(bnum, world.alloc(ev))
+        elif what == "delete":
+            world.delete(bnum, eid)
+        else:
+            world.replace(bnum, eid, world.alloc(ev))
+        world.drop_all()
+    elif what == "insert":
+        storage.insert_one(bk, ev)
+    elif what == "delete":
+        storage.delete(bk, eid)
+    else:
+        storage.replace(bk, eid, ev)
+    sizes[bk] = storage.get_eventcount(bk)
+    history.append(f"{what} in {bk!r}: " + (f"event id {eid}" if what == "delete" else f"{'id %s <- ' % eid if what == 'replace' else ''}"
+                                           f"timestamp {us_of_dt(ev.timestamp)} us, duration {us_of_td(ev.duration)} us, data {json.dumps(ev.data)}"))
 
 
 # ---------------------------------------------------------------------------
@@ -206,46 +246,146 @@ FAILING = [
 ]
 
 
-def boundary_programs(buckets):
+IN_PLACE = [m for m in MUTATING if m[0] in ("categorize", "tag", "period_union", "split_url_events", "merge_events_by_keys",
+                                             "chunk_events_by_key", "sort_by_duration", "limit_events", "concat")]
+
+
+def reread_tail(b, tag=""):
+    """re-read bucket b (events and count) into variables nothing else is given; -> (statements, return entries, ret_spec)"""
+    return ([f'again{tag} = query_bucket("{b}")', f'n{tag} = query_bucket_eventcount("{b}")'],
+            [f'"again{tag}": again{tag}', f'"n{tag}": n{tag}'],
+            {f"again{tag}": ("events", b), f"n{tag}": ("count", b)})
+
+
+def boundary_programs(buckets, rnd=0):
+    """(kind, statements, expected failure, ret_spec); ret_spec names the RETURN entries that hold the untouched result
+    of a read (see c12_reads.check_returned).  Of the two longer re-read shapes each built-in gets one per round,
+    alternating between rounds."""
     b1 = buckets[0]
     b2 = buckets[-1]
     head = [f'e1 = query_bucket("{b1}")', f'e2 = query_bucket("{b2}")']
-    for name, mk in MUTATING:
-        yield (name, head + [f"r = {mk('e1', 'e2')}", "RETURN = r"], None)
-        yield (name + "+reread", head + [f"r = {mk('e1', 'e2')}", f'again = query_bucket("{b1}")', "RETURN = again"], None)
+    for idx, (name, mk) in enumerate(MUTATING):
+        yield (name, head + [f"r = {mk('e1', 'e2')}", "RETURN = r"], None, None)
+        # the same bucket read again after the built-in ran on the first result
+        st, ent, spec = reread_tail(b1)
+        yield (name + "+reread", head + [f"r = {mk('e1', 'e2')}"] + st + ["RETURN = {" + ", ".join(ent + ['"r": r']) + "}"], None, spec)
+        # ... with the reads nested in the call, the count taken first, and the second bucket re-read too
+        st2, ent2, spec2 = reread_tail(b2, "2")
+        if (idx + rnd) % 2 == 0:
+            yield (name + "+reread-nested",
+                   [f'n0 = query_bucket_eventcount("{b1}")', "r = " + mk(f'query_bucket("{b1}")', f'query_bucket("{b2}")')] + st + st2
+                   + ["RETURN = {" + ", ".join(ent + ent2 + ['"r": r', '"n0": n0']) + "}"], None,
+                   dict(spec, n0=("count", b1), **spec2))
+        else:
+            # ... an earlier untouched read must survive the built-in applied to a later read of the same bucket
+            yield (name + "+reread-earlier",
+                   [f'keep = query_bucket("{b1}")', f'e1 = query_bucket("{b1}")', f'e2 = query_bucket("{b2}")', f"e1 = {mk('e1', 'e2')}",
+                    f"e1 = {mk('e1', 'e1')}"] + st + ["RETURN = {" + ", ".join(ent + ['"keep": keep', '"r": e1']) + "}"], None,
+                   dict(spec, keep=("events", b1)))
     for name, stmt in FAILING:
-        yield ("fail:" + name, head + [f"e1 = categorize(e1, {RULES})", "e1 = flood(e1)", stmt, "RETURN = e1"], name)
-    yield ("fail:no-return", head + ["r = period_union(e1, e2)"], "no-return")
+        yield ("fail:" + name, head + [f"e1 = categorize(e1, {RULES})", "e1 = flood(e1)", stmt, "RETURN = e1"], name, None)
+    yield ("fail:no-return", head + ["r = period_union(e1, e2)"], "no-return", None)
     yield ("find_bucket", [f'b = find_bucket("{b1[:1]}")', "e = query_bucket(b)", "n = query_bucket_eventcount(b)",
-                           'e = chunk_events_by_key(e, "app")', 'RETURN = {"events": e, "n": n}'], None)
-    yield ("find_bucket-host", [f'b = find_bucket("b", "host0")', "RETURN = query_bucket(b)"], None)
-    yield ("empty", ["RETURN = 1"], None)
+                           'e = chunk_events_by_key(e, "app")', 'RETURN = {"events": e, "n": n}'], None, None)
+    yield ("find_bucket-host", [f'b = find_bucket("b", "host0")', "RETURN = query_bucket(b)"], None, None)
+    yield ("empty", ["RETURN = 1"], None, None)
 
 
 def random_program(rng, buckets):
+    """reads (events and counts) at any position, preferably of a bucket read before; built-ins in between; the RETURN value
+    carries the reads no later statement was given"""
     stmts = []
     vars_ = []
+    pristine = {}          # variable -> ("events" | "count", bucket): assigned by a read, given to nothing since
+    read_buckets = []
+    counter = [0]
+
+    def read():
+        counter[0] += 1
+        b = rng.choice(read_buckets) if read_buckets and rng.random() < 0.7 else rng.choice(buckets)
+        if rng.random() < 0.75:
+            v = f"e{counter[0]}"
+            stmts.append(f'{v} = query_bucket("{b}")')
+            vars_.append(v)
+            pristine[v] = ("events", b)
+        else:
+            v = f"n{counter[0]}"
+            stmts.append(f'{v} = query_bucket_eventcount("{b}")')
+            pristine[v] = ("count", b)
+        read_buckets.append(b)
+
     for i in range(rng.randrange(1, 3)):
-        v = f"e{i + 1}"
-        stmts.append(f'{v} = query_bucket("{rng.choice(buckets)}")')
+        counter[0] += 1
+        v = f"e{counter[0]}"
+        b = rng.choice(buckets)
+        stmts.append(f'{v} = query_bucket("{b}")')
         vars_.append(v)
+        pristine[v] = ("events", b)
+        read_buckets.append(b)
     if rng.random() < 0.3:
-        stmts.append(f'n = query_bucket_eventcount("{rng.choice(buckets)}")')
+        read()
     for _ in range(rng.randrange(1, 7)):
+        if rng.random() < 0.3:
+            read()
+            continue
         name, mk = rng.choice(MUTATING)
         tgt = rng.choice(vars_ + [f"r{len(vars_)}"])
-        stmts.append(f"{tgt} = {mk(rng.choice(vars_), rng.choice(vars_))}")
+        a1, a2 = rng.choice(vars_), rng.choice(vars_)
+        stmts.append(f"{tgt} = {mk(a1, a2)}")
+        for v in (tgt, a1, a2):
+            pristine.pop(v, None)
         if tgt not in vars_:
             vars_.append(tgt)
+    if rng.random() < 0.5:
+        read()
     fail = None
     if rng.random() < 0.4:
         fail, stmt = rng.choice(FAILING)
         stmts.insert(rng.randrange(2, len(stmts) + 1), stmt)
+    spec = None
     if rng.random() < 0.9:
-        stmts.append("RETURN = " + rng.choice(vars_))
+        keys = sorted(pristine)
+        if keys and rng.random() < 0.6:
+            rng.shuffle(keys)
+            keys = sorted(keys[:3])
+            extra = rng.choice(vars_)
+            ent = [f'"{k}": {k}' for k in keys] + ([f'"other": {extra}'] if extra not in keys else [])
+            stmts.append("RETURN = {" + ", ".join(ent) + "}")
+            spec = {k: pristine[k] for k in keys}
+        else:
+            v = rng.choice(vars_)
+            stmts.append("RETURN = " + v)
+            spec = {None: pristine[v]} if v in pristine else None
     elif fail is None:
         fail = "no-return"
-    return ("random", stmts, fail)
+    if fail is not None:
+        spec = None
+    return ("random", stmts, fail, spec)
+
+
+def reader_program(b):
+    st, ent, spec = reread_tail(b)
+    return ("reader", st + ["RETURN = {" + ", ".join(ent) + "}"], None, spec)
+
+
+def mutator_program(rng, b, buckets):
+    """read b, run one or two built-ins on what was read, read again"""
+    name, mk = rng.choice(IN_PLACE)
+    stmts = [f'e1 = query_bucket("{b}")', f'e2 = query_bucket("{rng.choice(buckets)}")', f"e1 = {mk('e1', 'e2')}"]
+    if rng.random() < 0.5:
+        name2, mk2 = rng.choice(IN_PLACE)
+        stmts.append(f"e2 = {mk2('e1', 'e1')}")
+    st, ent, spec = reread_tail(b)
+    return ("mutator", stmts + st + ["RETURN = {" + ", ".join(ent + ['"r": e1']) + "}"], None, spec)
+
+
+def window_program(b):
+    """counts before, between and after the reads, an annotating built-in in between"""
+    return ("window-reads",
+            [f'n0 = query_bucket_eventcount("{b}")', f'e = query_bucket("{b}")', f'n1 = query_bucket_eventcount("{b}")',
+             f"t = tag(e, {TAGS})", f'e2 = query_bucket("{b}")', f'n2 = query_bucket_eventcount("{b}")',
+             'RETURN = {"e2": e2, "n0": n0, "n1": n1, "n2": n2, "t": t}'], None,
+            {"e2": ("events", b), "n0": ("count", b), "n1": ("count", b), "n2": ("count", b)})
 
 
 def windows_boundary():
@@ -283,9 +423,123 @@ def run_backend(backend, tier, seed, repo, have_driver=True):
 
     fac = own.make_memory if backend == "memory" else own.SqlFactory(backend)
     # rounds stay small (the model's heap only grows within a round); thorough = many more rounds
-    n_rounds = (3 if quick else 90) if backend == "memory" else (2 if quick else 30)
-    n_random = (40 if quick else 100) if backend == "memory" else (15 if quick else 60)
-    n_windows = (60 if quick else 120) if backend == "memory" else (25 if quick else 80)
+    # (the extracted model's run time grows faster than quadratically with the steps of a round: more, shorter rounds)
+    n_rounds = (6 if quick else 180) if backend == "memory" else (2 if quick else 30)
+    n_random = (20 if quick else 50) if backend == "memory" else (15 if quick else 60)
+    n_windows = (30 if quick else 60) if backend == "memory" else (25 if quick else 80)
+    n_seq = (2 if quick else 3) if backend == "memory" else (2 if quick else 6)
+    from aw_query import functions as qfunctions
+    cur = {}              # the running round / query: storage, world, window
+
+    def quiet(f):
+        w = cur.get("world")
+        if w is None:
+            return f()
+        on, w.spy_on = w.spy_on, False
+        try:
+            return f()
+        finally:
+            w.spy_on = on
+
+    def direct_read(bucket):
+        """the direct windowed read over the window of the running query, through a fresh Datastore facade"""
+        def f():
+            bk = Datastore(lambda testing=False, **kw: cur["storage"])[bucket]
+            return (ev_rows(bk.get(starttime=cur["st"], endtime=cur["en"])), bk.get_eventcount(starttime=cur["st"], endtime=cur["en"]))
+        return quiet(f)
+
+    probe = reads.ReadProbe(qfunctions.functions, Event, direct_read,
+                            (lambda: cur["world"].spy_calls if cur.get("world") is not None else []))
+    if sorted(probe.installed) != sorted(reads.READERS):
+        rep["disagreements"].append([f"the table of query functions has no entry for {sorted(set(reads.READERS) - set(probe.installed))}", {}])
+
+    def run_program(rnd, ds, sizes, kind, stmts, fail, spec, a, b, st, en, mirror=True):
+        """one query: dumps before/after, every read observed at hand-out, untouched reads in RETURN compared"""
+        storage, world = cur["storage"], cur["world"]
+        cur["st"], cur["en"] = st, en
+        text = ";\n".join(stmts) + ";"
+        # (the dump taken after the previous query of the round is this query's "before", unless the harness wrote since)
+        before = cur.get("dump") or (full_dump_quiet(world, storage), quiet(lambda: facade_dump(ds)))
+        status = "ok"
+        if world is not None:
+            world.spy_on = mirror
+            world.spy_calls = []
+        probe.begin()
+        try:
+            res = query2.query("q", text, st, en, ds)
+        except QueryException as ex:
+            status = "query-error:" + type(ex).__name__
+            res = None
+        except Exception as ex:  # other classes are C17's business; the store must still be intact
+            status = "other-error:" + type(ex).__name__
+            res = None
+        finally:
+            calls = probe.end()
+            if world is not None:
+                world.spy_on = False
+        after = full_dump_quiet(world, storage), quiet(lambda: facade_dump(ds))
+        cur["dump"] = after
+        count(f"program:{status.split(':')[0]}")
+        count("kind:" + (("fail:" + fail) if fail else "ok-program"))
+        if fail and status == "ok":
+            count("expected-failure-did-not-fail")
+        replay = {"backend": backend, "query": text, "start": st.isoformat(), "end": en.isoformat(),
+                  "population_seed": seed, "round": rnd, "kind": kind, "history": list(cur["history"])}
+        if before != after:
+            diff = [(x, y) for x, y in zip(before[0] + before[1], after[0] + after[1]) if x != y][:1]
+            rep["failing"].append({"signature": "C12:query-changed-store",
+                                   "description": f"[{backend}] bucket data differs after running a query ({status})",
+                                   "replay": dict(replay, first_difference=diff)})
+        # every read the program made, at the moment its result was handed out
+        bad, dis = reads.check_calls(calls, world is not None and mirror)
+        nreads = sum(1 for c in calls if "error" not in c)
+        count("reads-observed", nreads)
+        seen_b = [c.get("bucket") for c in calls if "error" not in c and c["fn"] == "query_bucket"]
+        rereads = len(seen_b) - len(set(seen_b))
+        count("re-reads-of-a-bucket-within-a-query", rereads)
+        if status == "ok" and spec:
+            bad += reads.check_returned(res, spec, direct_read, calls)
+            count("untouched-reads-returned", len(spec))
+        for sig, what, detail in bad[:2]:
+            rep["failing"].append({"signature": sig, "description": f"[{backend}] {what}", "replay": dict(replay, **detail)})
+        for what, detail in dis[:1]:
+            rep["disagreements"].append([f"[{backend}] {what}", dict(replay, **detail)])
+        got_events = any(n > 0 for n in sizes.values())
+        nontriv = got_events and (fail is not None or any(m[0] in text for m in MUTATING[:10]))
+        rep["cases"].append([[backend, rnd, text, a, b, len(cur["history"])], bool(nontriv)])
+        if world is not None and mirror:
+            wrote = [c for c in world.spy_calls if c in WRITE_METHODS]
+            if wrote:
+                rep["failing"].append({"signature": "C12:query-called-a-write",
+                                       "description": f"[memory] the query called storage write method(s) {sorted(set(wrote))}",
+                                       "replay": {"query": text}})
+            for c in world.spy_calls:
+                count("storage-call:" + c)
+        if world is not None:
+            # what the query returned is a caller-held value too
+            if own.is_cell(res) and kind != "window-reads":
+                shared = set(own.walk(res)) & world.store_ids()
+                if shared:
+                    rep["failing"].append({"signature": "C12:query-result-shares-object-with-store",
+                                           "description": "[memory] the value a query returned shares a mutable object with the store",
+                                           "replay": {"query": text}})
+                # ... and mutating it, at every depth, must not change the store
+                own.mutate_everything(type("W", (), {"handles": [res], "Event": Event})())
+                if (full_dump_quiet(world, storage), quiet(lambda: facade_dump(ds))) != after:
+                    rep["failing"].append({"signature": "C12:mutating-query-result-changes-store",
+                                           "description": "[memory] mutating the value a query returned changed bucket data",
+                                           "replay": {"query": text, "start": st.isoformat(), "end": en.isoformat()}})
+            if mirror:
+                world.drop_all()
+        if len(rep["samples"]) < 2 and fail and got_events:
+            rep["samples"].append({"backend": backend, "query": text, "outcome": status, "store_unchanged": before == after})
+        if len(rep["samples"]) < 4 and rereads and status == "ok" and spec and got_events and kind in ("random", "mutator"):
+            rep["samples"].append({"backend": backend, "query": text, "outcome": status, "reads_observed": nreads,
+                                   "re_reads": rereads, "untouched_reads_compared": sorted(str(k) for k in spec)})
+        cur["history"].append(f"query[{kind}] over [{st.isoformat()}, {en.isoformat()}]: {text if len(text) < 400 else text[:400] + '...'}")
+        del cur["history"][:-4]
+        return status
+
     for rnd in range(n_rounds):
         storage = fac()
         nb = [3, 1, 2][rnd % 3]
@@ -293,71 +547,49 @@ def run_backend(backend, tier, seed, repo, have_driver=True):
         if backend == "memory":
             world = own.World(storage, Event, "memory")
             install_spy(world, storage, rep)
+        cur.update(storage=storage, world=world, history=[], dump=None)
         sizes = populate(storage, Event, rng, nb, world)
         buckets = sorted(sizes)
         ds = Datastore(lambda testing=False, **kw: storage)
-        programs = list(boundary_programs(buckets)) if rnd < 3 else []
+        programs = list(boundary_programs(buckets, rnd)) if rnd < 3 else []
         programs += [random_program(rng, buckets) for _ in range(n_random)]
-        for kind, stmts, fail in programs:
+        for kind, stmts, fail, spec in programs:
             a = BASE + rng.choice([-2, 0, 0, 1, 3]) * 1_000_000 + rng.choice([0, 0, 1, 999, 1000])
             b = a + rng.choice([0, 1000, 5_000_000, 60_000_000, 60_000_000])
+            if "+reread" in kind and rng.random() < 0.7:
+                b = a + 60_000_000         # mostly windows with events in them
             st, en = aware(a, rng.choice([0, 60, -300, 345])), aware(b, rng.choice([0, 0, 120]))
-            text = ";\n".join(stmts) + ";"
-            before = full_dump_quiet(world, storage)
-            status = "ok"
-            if world is not None:
-                world.spy_on = True
-                world.spy_calls = []
-            try:
-                res = query2.query("q", text, st, en, ds)
-            except QueryException as ex:
-                status = "query-error:" + type(ex).__name__
-                res = None
-            except Exception as ex:  # other classes are C17's business; the store must still be intact
-                status = "other-error:" + type(ex).__name__
-                res = None
-            finally:
-                if world is not None:
-                    world.spy_on = False
-            after = full_dump_quiet(world, storage)
-            count(f"program:{status.split(':')[0]}")
-            count("kind:" + (("fail:" + fail) if fail else "ok-program"))
-            if fail and status == "ok":
-                count("expected-failure-did-not-fail")
-            if before != after:
-                diff = [(x, y) for x, y in zip(before, after) if x != y][:1]
-                rep["failing"].append({"signature": "C12:query-changed-store",
-                                       "description": f"[{backend}] bucket data differs after running a query ({status})",
-                                       "replay": {"backend": backend, "query": text, "start": st.isoformat(), "end": en.isoformat(),
-                                                  "population_seed": seed, "round": rnd, "first_difference": diff}})
-            got_events = any(n > 0 for n in sizes.values())
-            nontriv = got_events and (fail is not None or any(m[0] in text for m in MUTATING[:10]))
-            rep["cases"].append([[backend, rnd, text, a, b], bool(nontriv)])
-            if world is not None:
-                wrote = [c for c in world.spy_calls if c in WRITE_METHODS]
-                if wrote:
-                    rep["failing"].append({"signature": "C12:query-called-a-write",
-                                           "description": f"[memory] the query called storage write method(s) {sorted(set(wrote))}",
-                                           "replay": {"query": text}})
-                for c in world.spy_calls:
-                    count("storage-call:" + c)
-                # what the query returned is a caller-held value too
-                if own.is_cell(res):
-                    shared = set(own.walk(res)) & world.store_ids()
-                    if shared:
-                        rep["failing"].append({"signature": "C12:query-result-shares-object-with-store",
-                                               "description": "[memory] the value a query returned shares a mutable object with the store",
-                                               "replay": {"query": text}})
-                    # ... and mutating it, at every depth, must not change the store
-                    own.mutate_everything(type("W", (), {"handles": [res], "Event": Event})())
-                    if full_dump_quiet(world, storage) != after:
-                        rep["failing"].append({"signature": "C12:mutating-query-result-changes-store",
-                                               "description": "[memory] mutating the value a query returned changed bucket data",
-                                               "replay": {"query": text, "start": st.isoformat(), "end": en.isoformat()}})
-            if world is not None:
-                world.drop_all()
-            if len(rep["samples"]) < 2 and fail and got_events:
-                rep["samples"].append({"backend": backend, "query": text, "outcome": status, "store_unchanged": before == after})
+            run_program(rnd, ds, sizes, kind, stmts, fail, spec, a, b, st, en)
+        # ---- sequences of queries in this process, same Datastore object: a mutating query, a reading query over the same
+        # window (the same datetime objects, equal ones, the same instants under another UTC offset), a write to the bucket
+        # in between, another window and back
+        for _ in range(n_seq):
+            full = [x for x in buckets if sizes[x]]
+            bk = rng.choice(full) if full else rng.choice(buckets)
+            a = BASE + rng.choice([-2, 0, 1]) * 1_000_000 + rng.choice([0, 1, 999, 1000])
+            b = a + rng.choice([5_000_000, 60_000_000, 60_000_000, 1000])
+            oa, ob = rng.choice([0, 60, 345]), rng.choice([0, 120])
+            st, en = aware(a, oa), aware(b, ob)
+            variants = [(st, en), (aware(a, oa), aware(b, ob)), (aware(a, ob), aware(b, oa))]
+            steps = ["mutate", "read", rng.choice(["insert", "delete", "replace"]), "read", "mutate", "other-window", "read",
+                     rng.choice(["insert", "delete"]), "read"]
+            for what in steps:
+                if what == "mutate":
+                    kind, stmts, fail, spec = mutator_program(rng, bk, buckets)
+                    run_program(rnd, ds, sizes, kind, stmts, fail, spec, a, b, st, en)
+                elif what == "read":
+                    s2, e2 = rng.choice(variants)
+                    kind, stmts, fail, spec = reader_program(bk)
+                    run_program(rnd, ds, sizes, kind, stmts, fail, spec, a, b, s2, e2)
+                elif what == "other-window":
+                    a2 = a + rng.choice([0, 1_000_000, 500])
+                    b2 = a2 + rng.choice([2_000_000, 10_000_000])
+                    kind, stmts, fail, spec = mutator_program(rng, bk, buckets)
+                    run_program(rnd, ds, sizes, kind, stmts, fail, spec, a2, b2, aware(a2, oa), aware(b2, ob))
+                else:
+                    write_between(what, storage, world, Event, rng, bk, a, b, sizes, cur["history"])
+                    cur["dump"] = None
+                    count("write-between-queries:" + what)
         # ---- windows
         wins = list(windows_boundary()) if rnd == 0 else []
         for _ in range(n_windows):
@@ -378,6 +610,9 @@ def run_backend(backend, tier, seed, repo, have_driver=True):
             bk = rng.choice(full) if full and rng.random() < 0.8 else rng.choice(buckets)
             if world is not None:
                 world.spy_on = False
+            # counts before / between / after two reads of the bucket, an annotating built-in in between (not mirrored)
+            kind, stmts, fail, spec = window_program(bk)
+            run_program(rnd, ds, sizes, kind, stmts, fail, spec, a, b, st, en, mirror=False)
             direct = ev_rows(ds[bk].get(starttime=st, endtime=en))
             dcount = ds[bk].get_eventcount(starttime=st, endtime=en)
             if world is not None:
